@@ -212,49 +212,107 @@ func c05Sanitiser(e *Env) {
 	cname := w.FuncName(choke.Obj)
 	sig := choke.Obj.Type().(*types.Signature)
 	dst, key, val := sig.Params().At(0), sig.Params().At(1), sig.Params().At(2)
-	// validation loop
-	var loop *ast.RangeStmt
+	// validation loop: inline, or in a predicate called as `if !valid(key) { return dst }`
+	var loop ast.Node // the statement after which the key counts as validated
 	var table []int
 	tname := ""
-	for _, st := range choke.Decl.Body.List {
-		rs, ok := st.(*ast.RangeStmt)
-		if !ok || usedVar(info, rs.X) != key {
-			continue
+	// findLoop looks in body for `for _, k := range kv { if Table[k] == 0 { <fail> } }`
+	findLoop := func(finfo *types.Info, body *ast.BlockStmt, kv *types.Var, fail func(*ast.ReturnStmt) bool) (*ast.RangeStmt, []int, string) {
+		for _, st := range body.List {
+			rs, ok := st.(*ast.RangeStmt)
+			if !ok || usedVar(finfo, rs.X) != kv {
+				continue
+			}
+			elem, _ := rs.Value.(*ast.Ident)
+			if elem == nil {
+				continue
+			}
+			ev := finfo.ObjectOf(elem)
+			for _, bs := range rs.Body.List {
+				is, ok := bs.(*ast.IfStmt)
+				if !ok || !terminates(is.Body) {
+					continue
+				}
+				be, ok := unparen(is.Cond).(*ast.BinaryExpr)
+				if !ok || be.Op != token.EQL {
+					continue
+				}
+				ix, ok := unparen(be.X).(*ast.IndexExpr)
+				if !ok {
+					continue
+				}
+				if z, ok := constInt(finfo, be.Y); !ok || z != 0 {
+					continue
+				}
+				if id, ok := unparen(ix.Index).(*ast.Ident); !ok || finfo.ObjectOf(id) != ev {
+					continue
+				}
+				rs2, ok := is.Body.List[len(is.Body.List)-1].(*ast.ReturnStmt)
+				if !ok || !fail(rs2) {
+					continue
+				}
+				if t, n, ok := byteTable(w, finfo, ix.X); ok && len(t) == 256 {
+					return rs, t, n
+				}
+			}
 		}
-		elem, _ := rs.Value.(*ast.Ident)
-		if elem == nil {
-			continue
-		}
-		ev := info.ObjectOf(elem)
-		for _, bs := range rs.Body.List {
-			is, ok := bs.(*ast.IfStmt)
-			if !ok || !terminates(is.Body) {
+		return nil, nil, ""
+	}
+	returnsDst := func(rs *ast.ReturnStmt) bool { return len(rs.Results) == 1 && usedVar(info, rs.Results[0]) == dst }
+	if rs, t, n := findLoop(info, choke.Decl.Body, key, returnsDst); rs != nil {
+		loop, table, tname = rs, t, n
+	} else {
+		for _, st := range choke.Decl.Body.List {
+			is, ok := st.(*ast.IfStmt)
+			if !ok || is.Init != nil || len(is.Body.List) == 0 {
 				continue
 			}
-			be, ok := unparen(is.Cond).(*ast.BinaryExpr)
-			if !ok || be.Op != token.EQL {
+			last, ok := is.Body.List[len(is.Body.List)-1].(*ast.ReturnStmt)
+			if !ok || !returnsDst(last) {
 				continue
 			}
-			ix, ok := unparen(be.X).(*ast.IndexExpr)
-			if !ok {
+			u, ok := unparen(is.Cond).(*ast.UnaryExpr)
+			if !ok || u.Op != token.NOT {
 				continue
 			}
-			if z, ok := constInt(info, be.Y); !ok || z != 0 {
+			call, ok := unparen(u.X).(*ast.CallExpr)
+			if !ok || len(call.Args) != 1 || usedVar(info, call.Args[0]) != key {
 				continue
 			}
-			if id, ok := unparen(ix.Index).(*ast.Ident); !ok || info.ObjectOf(id) != ev {
+			pd := w.DeclOf(calleeOf(info, call))
+			if pd == nil || pd.Decl.Body == nil || len(pd.Decl.Body.List) == 0 {
 				continue
 			}
-			rs2, ok := is.Body.List[len(is.Body.List)-1].(*ast.ReturnStmt)
-			if !ok || len(rs2.Results) != 1 || usedVar(info, rs2.Results[0]) != dst {
+			psig := pd.Obj.Type().(*types.Signature)
+			if psig.Params().Len() != 1 || psig.Results().Len() != 1 {
 				continue
 			}
-			if t, n, ok := byteTable(w, info, ix.X); ok && len(t) == 256 {
-				loop, table, tname = rs, t, n
+			pinfo := pd.Pkg.TypesInfo
+			isConstBool := func(e ast.Expr, want string) bool {
+				id, ok := unparen(e).(*ast.Ident)
+				return ok && id.Name == want
+			}
+			// the predicate answers true only by falling through the loop
+			fin, ok := pd.Decl.Body.List[len(pd.Decl.Body.List)-1].(*ast.ReturnStmt)
+			if !ok || len(fin.Results) != 1 || !isConstBool(fin.Results[0], "true") {
+				continue
+			}
+			otherTrue := false
+			ast.Inspect(pd.Decl.Body, func(m ast.Node) bool {
+				if rs, ok := m.(*ast.ReturnStmt); ok && rs != fin && len(rs.Results) == 1 && !isConstBool(rs.Results[0], "false") {
+					otherTrue = true
+				}
+				return true
+			})
+			if otherTrue {
+				continue
+			}
+			if rs, t, n := findLoop(pinfo, pd.Decl.Body, psig.Params().At(0), func(rs *ast.ReturnStmt) bool { return len(rs.Results) == 1 && isConstBool(rs.Results[0], "false") }); rs != nil {
+				loop, table, tname = is, t, n
 			}
 		}
 	}
-	r.Check(loop != nil, rule, cname+":key-validation-loop", w.Pos(choke.Decl.Pos()), "the key is validated byte by byte and an invalid key drops the line", "no `for _, k := range key { if Table[k] == 0 { return dst } }` loop found before the key is appended")
+	r.Check(loop != nil, rule, cname+":key-validation-loop", w.Pos(choke.Decl.Pos()), "the key is validated byte by byte and an invalid key drops the line", "neither `for _, k := range key { if Table[k] == 0 { return dst } }` nor `if !valid(key) { return dst }` with such a loop in valid found before the key is appended")
 	if table != nil {
 		for _, c := range []int{'\r', '\n', 0, ' ', ':'} {
 			r.Check(table[c] == 0, rule, fmt.Sprintf("%s:keytable:%#02x", cname, c), w.Pos(choke.Decl.Pos()), fmt.Sprintf("%s[%#02x] == 0 (byte may not occur in a header name)", tname, c), fmt.Sprintf("%s accepts byte %#02x in a header name", tname, c))
